@@ -254,6 +254,9 @@ func runSTCase(c STCase) pbt.Verdict {
 		default:
 			cs.add(prefix + "name:no-dotseg")
 		}
+		if climbsToPrefixSibling(a) || (op.Op == stMoveUploadToCache && c.Kind == 0 && climbsToPrefixSibling(bn)) {
+			cs.add(prefix + "name:climbs-to-prefix-sibling")
+		}
 		if dot {
 			keys = append(keys, fmt.Sprintf("st|%d|%d|%s|%s", c.Kind, op.Op, a, bn))
 			if opErr == nil {
